@@ -1,16 +1,26 @@
 #!/bin/bash
-# usage: seed_run.sh <seeded dir> <check id>...   applies patch.diff to /repo, runs the checks (evidence in a scratch
-# dir), reverts /repo. Prints one line per check.
+# usage: seed_run.sh <seeded dir> <check id>...
+# Runs the checks against a seeded change. By default the patch is applied in a scratch
+# worktree of /repo (VERIF_REPO points the checks at it), so /repo itself stays untouched
+# while other runs use it; with SEED_INPLACE=1 it is applied to /repo and reverted afterwards
+# (the way an evaluator would do it). Evidence goes to a scratch directory.
 set -u
 D="$(cd "$1" && pwd)"; shift
-cd /repo || exit 3
-if [ -n "$(git status --porcelain)" ]; then echo "/repo not clean" >&2; exit 3; fi
-git apply "$D/patch.diff" || exit 3
 S=$(mktemp -d /tmp/seedrun.XXXXXX); cp /verif/known_findings.json "$S/"
+if [ "${SEED_INPLACE:-0}" = 1 ]; then
+  cd /repo || exit 3
+  if [ -n "$(git status --porcelain)" ]; then echo "/repo not clean" >&2; exit 3; fi
+  git apply "$D/patch.diff" || exit 3
+  R=/repo
+else
+  git -C /repo worktree add --detach -q "$S/wt" HEAD || exit 3
+  git -C "$S/wt" apply "$D/patch.diff" || exit 3
+  R="$S/wt"
+fi
 for id in "$@"; do
-  VERIF_DIR_OVERRIDE="$S" /verif/check.sh "$id" "${SEED_TIER:-quick}" > "$S/$id.out" 2>&1; rc=$?
+  VERIF_REPO="$R" VERIF_DIR_OVERRIDE="$S" /verif/check.sh "$id" "${SEED_TIER:-quick}" > "$S/$id.out" 2>&1; rc=$?
   v=$(grep -c '^VIOLATION' "$S/$id.out")
   echo "$id exit=$rc violations=$v $(grep -m2 'signature=' "$S/$id.out" | cut -c1-220 | tr '\n' ' ')"
 done
-git -C /repo checkout -- . 
+if [ "${SEED_INPLACE:-0}" = 1 ]; then git -C /repo checkout -- .; else git -C /repo worktree remove --force "$S/wt"; fi
 rm -rf "$S"
